@@ -40,6 +40,10 @@ REF_FORMS = ('DW_FORM_ref1', 'DW_FORM_ref2', 'DW_FORM_ref4', 'DW_FORM_ref8', 'DW
 
 def _ctx(cu):
     """(section bytes, unit offset) of a unit object"""
+    if cu.cls == 'TypeUnit':
+        # a version 4 type unit: the same entry encoding, read from .debug_types at the unit's offset there
+        sec = cu.attrs['dwarfinfo'].attrs['debug_types_sec']
+        return sec.fields['stream'].arr, to_int(cu.attrs['tu_offset'])
     sec = cu.attrs['dwarfinfo'].attrs['debug_info_sec']
     return sec.fields['stream'].arr, to_int(cu.attrs['cu_offset'])
 
@@ -212,6 +216,19 @@ def siblings_wellformed(I, cu):
                   patterns=[A_has(arr, cuo, c, sib)]),
         # the encoded tree is laid out forwards: the children of an entry lie after it
         z3.ForAll([c, k], z3.Implies(k >= 0, _child(arr, cuo, c, k) > c), patterns=[_child(arr, cuo, c, k)]))
+
+
+@_native
+def unit_stream(I, cu):
+    """the stream the unit's entries are read from: .debug_types for a version 4 type unit, else .debug_info"""
+    sec = cu.attrs['dwarfinfo'].attrs['debug_types_sec' if cu.cls == 'TypeUnit' else 'debug_info_sec']
+    return sec.fields['stream']
+
+
+@_native
+def unit_die_offset(I, cu):
+    """section offset of the unit's root entry"""
+    return cu.attrs['tu_die_offset' if cu.cls == 'TypeUnit' else 'cu_die_offset']
 
 
 @_native
